@@ -165,8 +165,8 @@ pub fn exec(f: &[&str]) -> Option<String> {
             let t = jsonb::to_string(&doc);
             let tp = jsonb::to_pretty_string(&doc);
             let want = match to_serde(&v) { Some(w) => w, None => return Some("skip".into()) };
-            let s1: serde_json::Value = match serde_json::from_str(&t) { Ok(x) => x, Err(_) => return Some("compact text is not strict JSON".into()) };
-            let s2: serde_json::Value = match serde_json::from_str(&tp) { Ok(x) => x, Err(_) => return Some("pretty text is not strict JSON".into()) };
+            let s1: serde_json::Value = match crate::wire::strict_json(&t) { Ok(x) => x, Err(_) => return Some("compact text is not strict JSON".into()) };
+            let s2: serde_json::Value = match crate::wire::strict_json(&tp) { Ok(x) => x, Err(_) => return Some("pretty text is not strict JSON".into()) };
             let mut fl = vec![]; doc_floats(&v, &mut fl);
             if float_tokens(&t) != fl { return Some("compact text: a float literal does not read back (correctly rounded) to the stored double".into()); }
             if float_tokens(&tp) != fl { return Some("pretty text: a float literal does not read back (correctly rounded) to the stored double".into()); }
